@@ -21,6 +21,21 @@ type Dumper struct {
 	depth    int
 }
 
+// NewDumper returns a Dumper with the given masked fields.
+func NewDumper(mask ...string) *Dumper {
+	d := &Dumper{Mask: map[string]bool{}, seen: map[unsafe.Pointer]int{}}
+	for _, m := range mask {
+		d.Mask[m] = true
+	}
+	return d
+}
+
+// Render dumps v.
+func (d *Dumper) Render(v any) string {
+	d.val(reflect.ValueOf(v))
+	return d.b.String()
+}
+
 func Dump(v any, mask ...string) string {
 	d := &Dumper{Mask: map[string]bool{}, seen: map[unsafe.Pointer]int{}}
 	for _, m := range mask {
